@@ -6,6 +6,7 @@ combinations of posterior() x trimming parameters x scripted resampling offsets 
 and their return values checked for arity, equal lengths, normalisation and row alignment.
 """
 import itertools
+import math
 
 import numpy as np
 
@@ -155,7 +156,50 @@ def run_pipe1(case):
     return res
 
 
-KINDS = {"pipe": run_pipe, "pipe1": run_pipe1}
+def run_threshold(case):
+    """Boundary values of the termination test: a scout run records the posterior ESS after every iteration at beta=1;
+    the run is then repeated with n_total just above each recorded ESS (same tape) and must not stop short of it."""
+    res = Res()
+    cfg = dict(case["cfg"])
+    trail = []
+
+    def mon(ev):
+        if ev.step == "commit" and abs(1.0 - float(ev.probe.state._current["beta"])) < 1e-4:
+            b, be, lz = mis.history_of(ev.probe.state)
+            trail.append(mis.ess_float(mis.logw_float(b, be, lz, 1.0)[0]))
+
+    scout = Probe(dict(cfg, n_total=case["scout_total"]), base=case["base"], monitors=[mon], max_iters=400)
+    scout.run()
+    res.evals += 1
+    res.traces += 1
+    if scout.exc is not None:
+        res.bump("aborted_runs")
+        return res
+    targets_ = []
+    for e in trail:
+        nt = int(math.floor(e)) + 1
+        if nt not in targets_ and nt > cfg["n_particles"]:
+            targets_.append(nt)
+    for nt in targets_[: case["max_targets"]]:
+        if case.get("only_nt") and case["only_nt"] != nt:
+            continue
+        p = Probe(dict(cfg, n_total=nt), base=case["base"], max_iters=400)
+        p.run()
+        res.evals += 1
+        res.states += 1
+        res.trans += p.events
+        cc = dict(case, only_nt=nt)
+        if p.exc is not None:
+            res.bump("aborted_runs")
+            continue
+        for key, msg in terminal_errors(p):
+            res.violate("threshold:" + key, msg + f" [n_total={nt} chosen just above a posterior ESS the run passes through; cfg={cfg}]", cc)
+        res.outcome(("threshold", tuple(sorted((k, repr(v)) for k, v in cfg.items())), nt), nontrivial=True)
+    res.sample({"cfg": cfg, "ess_trail": [round(e, 3) for e in trail[:6]], "n_total_values": targets_[: case["max_targets"]]}, cap=1)
+    return res
+
+
+KINDS = {"pipe": run_pipe, "pipe1": run_pipe1, "threshold": run_threshold}
 
 FACTORS = [
     ("sample", ["tpcn", "rwm"]),
@@ -188,6 +232,9 @@ def plan(ctx):
     cases = [{"kind": "pipe", "cfg": cfg_of(r), "base": ctx.seed, "max_dev": 1, "max_runs": 40 if th else 12, "offsets": offs} for r in rows]
     ctx.bounds.update({"configs": len(rows), "covering_strength": strength, "tuples_covered": f"{cov}/{tot}", "max_deviations": 1,
                        "posterior_flag_combinations": 16, "trim_params": TRIMS, "resample_offsets": offs})
+    thr = [{"kind": "threshold", "cfg": dict(sample=k, resample=r, clustering=cl, n_particles=npart, eval="scalar"), "base": ctx.seed, "scout_total": 12 * npart, "max_targets": 12 if th else 6}
+           for k in ("tpcn", "rwm") for r in ("mult", "syst") for cl in (False, True) for npart in ((16, 32) if th else (16,))]
+    ctx.explore("termination-threshold", thr)
     agg = ctx.explore("terminal-states", cases)
     if agg.extra.get("run_cap_hit"):
         ctx.cap(f"per-configuration run cap hit in {agg.extra['run_cap_hit']} configurations (0-deviation run and the earliest 1-deviation runs complete)")
